@@ -1067,20 +1067,20 @@ class PDFPageInterpreter:
             of the current resource dictionary
         :param fontsize: size is a number representing a scale factor.
         """
+        fontsize_f = safe_float(fontsize)
+        if fontsize_f is None:
+            log.warning(
+                f"Could not set text font because {fontsize!r} is an invalid float value"
+            )
+            return
+
         try:
             self.textstate.font = self.fontmap[literal_name(fontid)]
         except KeyError:
             if settings.STRICT:
                 raise PDFInterpreterError("Undefined Font id: %r" % fontid)
             self.textstate.font = self.rsrcmgr.get_font(None, {})
-
-        fontsize_f = safe_float(fontsize)
-        if fontsize_f is None:
-            log.warning(
-                f"Could not set text font because {fontsize!r} is an invalid float value"
-            )
-        else:
-            self.textstate.fontsize = fontsize_f
+        self.textstate.fontsize = fontsize_f
 
     def do_Tr(self, render: PDFStackT) -> None:
         """Set the text rendering mode"""
